@@ -4,7 +4,7 @@
 # current working tree with -tags verif on every run.
 export GOFLAGS=-mod=mod GOPROXY=off GOSUMDB=off GOTOOLCHAIN=local
 cd /verif || exit 2
-if [ ! -x /verif/bin/govc ]; then
+if [ ! -x /verif/bin/govc ] || [ -n "$(find /verif/govc -name '*.go' -newer /verif/bin/govc 2>/dev/null | head -1)" ]; then
   (cd /verif/govc && go build -o /verif/bin/govc .) || exit 2
 fi
 TIER=${2:-${VERIF_TIER:-quick}}
